@@ -1,106 +1,115 @@
-"""Claims table for MANIFEST.json (edited as checks are completed)."""
-PENDING = 'check not implemented yet (build in progress); see DESIGN.md section 4'
-NOT_APPLICABLE = {('C%02d' % i): PENDING for i in range(1, 21)}
+"""Claims table for MANIFEST.json.
+
+The level text of a check is assembled by tools/mkmanifest.py from three parts: `scope` (what kind of verdict this is), the
+rule texts that the check itself prints into its evidence file (so the manifest cannot drift from the code), and
+`not_decided` (the part of the property that is out of reach and is NOT claimed)."""
+NOT_APPLICABLE = {}
+
+COMMON_SCOPE = ('Static analysis of the source of /repo (ast; nothing of plasTeX is imported or executed). Each rule below is a necessary '
+                'condition of the property, decided either structurally for all paths of the anchored code (pairing, ownership, tables) or by '
+                'abstract interpretation of the anchored functions on small finite scenario families (constant propagation with every input '
+                'bound: token kinds, small DOM heaps, scripted streams/files); an outcome the interpretation cannot determine is exit 2, never '
+                'a verdict. Decided: ')
 
 CLAIMS = {
  'C01': {
-  'text': 'Decides, for every path of the anchored code, the structural part of the property: the 16 category constants and the category->token-class table (each produced token class carries the category it is registered for); Context.whichCode is the total inverse of the category table and Context.catcode moves a character out of all 16 classes; the N/M/S transition relation of Tokenizer.__iter__ equals the TeXbook table cell by cell (3 states x 14 categories + escape followed by letter/other/space/eol/end-of-input, letter-ness decided by category code); the ^^ reader decodes only on a repeated character with c-64/c+64; no ord()/chr() on a raw read that may be empty (termination without raising). Holds for all inputs and catcode tables because the cells range over categories, not characters. Not decided: the concrete token stream of a concrete string.',
-  'note': 'Trusted: CPython ast, the abstract interpreter (sa/absint.py), the oracle table written from TeXbook ch. 8 as worded by the property; get_let is summarised as identity (no \\let alias in force).',
-  'technique': 'conditional constant propagation over (state x catcode x next-catcode) on the tokenizer ast, table folding, emptiness-dominance dataflow',
- },
- 'C03': {
-  'text': 'Decides the structural part of branch selection for every path of the anchored code: the branch index of processIfContent is provably in range (booleans 0/1 with the else padding; integer selectors dominated by a range test that redirects out-of-range selectors to the else case); the branch scanner table (token kind newif/if*/fi/else/or/other x nesting 0/>0 -> copied/new case/terminates, nesting +1/-1/0) and six whole-branch selections over token kinds; every conditional primitive (IfCommand/NewIf subclasses) calls processIfContent exactly once per normal path and returns no tokens; ifnum/ifdim relation characters select with the matching operator in first-read/second-read order, ifodd with % 2; the newif trio is registered globally and bound to one switch; the scanner recognition predicate (name prefix if) agrees with the class table of conditionals. Not decided: which branch a concrete program selects for concrete operand values.',
-  'note': 'Trusted: CPython ast, sa/absint.py, the oracle tables from the TeXbook as worded by the property. Two known findings (ordinary macros ifthenelse, iflanguage counted as opening conditionals) are listed in known_findings.json.',
-  'technique': 'conditional constant propagation over (token kind x nesting) on the branch scanner, bounded-index dataflow, per-path call counting, table extraction',
- },
- 'C05': {
-  'text': 'Decides the structural part of argument scanning on every path of the anchored code: ParameterCommand.disable()/enable() are balanced (net 0, never positive) on every normal exit of every function that calls either; every type and subtype named in any args signature of any Macro subclass of the package (about 350 signatures, tokenised with the regular expression taken from Macro.arguments) is a key of TeX.argtypes or special-cased by readArgumentAndSource; every unit of dimen.units has a conversion arm whose factor equals the divisor of the inverse property and the TeX constant, fil orders use the 2e9/4e9/6e9 bands in writer and readers; the optional/continuation scanners (readOptionalSpaces, readOneOptionalSpace, readOptionalSigns, readSequence, readCharacter, readGrouping, readKeyword) push back the character that fails the acceptance test and consume an accepted one once (table per scanner x token kind, so exactly the text of the invocation is consumed); the radix table of readInteger with the one optional space on every arm; the sign read by readOptionalSigns reaches every returned value exactly once. Not decided: the values bound for concrete invocations.',
-  'note': 'Trusted: CPython ast, sa/absint.py, TeX unit constants and the TeXbook integer syntax in the checker. Out of domain by design: missing-number recovery paths and readKeyword on an already expanded element (non-conforming calls).',
-  'technique': 'path-sensitive counter dataflow (enable/disable balance), cross-module table extraction and comparison, conditional constant propagation over (scanner x token kind)',
- },
- 'C17': {
-  'text': 'Decides the effect part of the property for the whole package: every write, from inside any function, to interpreter-wide state (class attributes via type(self)/cls/ClassName/setattr, class-level containers and their local aliases, attributes of context[...] classes, module globals, module-level mutables, shared mutable class defaults, class mix-ins) is enumerated by an effect scan and must be classified by an explicit ownership table: cache of static class data, logging, identity re-binding, per-document generated class, import-time-only writer, or balanced; balanced entries are proven net-zero or restored on every normal path (enable/disable callers, ParameterCommand.invoke, ifthenelse disableMath, BoxCommand inEnv, Renderer.render mixin and Node.renderer). Genuine leaks that exist by construction of plasTeX are reported as KNOWN-FINDING per site; any new untabled write is a VIOLATION. Not decided: equality of trees and files for concrete document sequences.',
-  'note': 'Trusted: CPython ast, the effect scanner (sa/effects.py) resolves class references through the static model; writes through objects whose class cannot be resolved statically (e.g. a class passed as an ordinary parameter) are only seen for the enumerated parameter-mutator helpers (mixin/unmix). 11 known findings (register values, List.depth, MathShift.inEnv, article/natbib class patching, defcitealias aliases).',
-  'technique': 'whole-package effect/ownership scan with allow-table, plus path-sensitive balance and structural dataflow for paired writes',
- },
- 'C04': {
-  'text': 'Decides the structural part of scoping for every path of the anchored code: who may push/pop the context stack (every function of the package that does so is in a pairing table; an untabled site is a violation) and, by structural dataflow, that the net effect and the lowest intermediate level at every normal exit are those of the table (commands neutral, BEGIN +1, END -1, cells and rows pop-then-push), refined per macro mode for Macro/Environment/Array.invoke; category tables are copy-on-write (every element store is dominated by an unconditional fresh copy installed in the innermost frame, module tables only used through copies); local/global insertion table (addLocal/addGlobal/let/new* declarations/def family); chained lookup, innermost-first alias lookup, pop matching END to BEGIN by exact class and keeping the parent frame, mapMethods after every push and pop. Not decided: that a concrete document leaves depth 1.',
-  'note': 'Trusted: CPython ast, sa/flow.py (path-insensitive: every branch feasible), sa/absint.py; the pairing table is frozen from the reference tree with one reason per entry.',
-  'technique': 'who-may-call table + structural counter dataflow (push/pop pairing), copy-on-write dominance dataflow, table extraction',
- },
- 'C06': {
-  'text': 'Decides the structural preconditions of tree consistency for every path of the anchored code: a single owner of the child list (only Node.append/insert/pop/normalize and the childNodes getter mutate a child list anywhere in the package; _dom_childNodes is bound only by the getter); append and insert assign ownerDocument unconditionally and parentNode exactly under the setParent guard on every path that lists the child, fragments item by item with index advance; every other adder routes through them, and the relative inserts detach the new child before locating the reference child by identity and raise NotFoundErr otherwise; deep clones append clones of children and never share attribute nodes; normalize disposes of every child exactly once, flushes text, and empties the list in place; attribute maps re-parent before storing and recurse into fragments/lists/dicts; sibling navigation locates a node by identity. Not decided: agreement of all derived views with a list model for every history.',
-  'note': 'Trusted: CPython ast, sa/flow.py. Several rules fix the accepted idiom of the anchored methods (detach-then-locate loop, is-comparison); an equivalent re-implementation in another idiom is reported as ANALYSIS-level mismatch to be re-confirmed by hand.',
-  'technique': 'ownership scan (who may mutate the child list), structural dataflow on the adders (both links set on every listing path), linearity counting in normalize, idiom tables for relative inserts',
- },
- 'C07': {
-  'text': 'Decides the structural part of lossless parsing for every path of the anchored code: token linearity of every digestion loop of the package (each drawn token is appended once, or pushed back and the loop left, or recognised as the end delimiter, or skipped as whitespace) including the top-level build loop; paragraph grouping places every popped node exactly once, re-inserts every rebuilt node in order and normalises every paragraph; absorb-or-return by level as a complete cell table over the level constants (8 sectioning levels x 13 item levels, plus environments); the level table itself; no math-mode or verbatim container forwards character substitutions; the outermost text container reaches paragraphs() on every normal path; nodes are deleted from the finished tree only when they carry no text (border-only rows, empty paragraphs). Not decided: word order and multiplicity for concrete documents.',
-  'note': 'Trusted: CPython ast, sa/absint.py. Two triaged exceptions in the linearity rule (thebibliography.digest, List.digest) with reasons; two known findings (substitutions inside math arrays and ensuremath).',
-  'technique': 'per-iteration path enumeration with event counting (linearity), conditional constant propagation over level constants, method-resolution tables',
- },
- 'C10': {
-  'text': 'Decides the structural part of list/table shape for every path of the anchored code: cell and row delimiters (and all EndRow subclasses) pop the previous cell frame before pushing a fresh one; the phantom row/cell creation table (begin, &, row end); the end-class tables (a row digests until a row end and consumes it, a cell until a delimiter or row end and consumes only a cell delimiter, an item until the next item, digestUntil pushes the end token back); span bookkeeping - every arm of the cell loop of BorderCommand.applyBorders advances the column number by the cell span, sibling sites count by span, cells copy colspan from multicolumn; the two rule-placement scans of a cell mark trailing rules AFTER and leading rules BEFORE, skip only whitespace and stop at the first other item; every column of a specification is a fresh column object and * re-reads its tokens. Not decided: contents and borders of concrete generated tables.',
-  'note': 'Trusted: CPython ast, sa/absint.py, sa/flow.py. Some rules fix the accepted idiom of the anchored methods.',
-  'technique': 'per-iteration path enumeration with symbolic span (sibling-arm agreement), push/pop counter dataflow, return-value tables, idiom tables',
- },
- 'C08': {
-  'text': 'Decides the structural part of numbering for every path of the anchored code: the counter reset tree declared by the document classes agrees with the sectioning hierarchy (resetby chain, formats ${the<outer>}.${self}, equation/figure/table within chapter, enum chain, the only format overrides); every counter mutator changes the value and then reaches the transitive reset, and resetcounters zeroes and recurses on exactly the counters whose declaration names this counter, under no other condition; the three stepping hooks partition the signature shapes so that refstepcounter runs exactly once (a present * clears the counter first), refstepcounter sets the current label before stepping, postParse numbers only down to secnumdepth, nonumber compensates; list counters; the roman numeral table of numToRoman equals the standard (threshold, symbol) table with inclusive thresholds, alph indexes letters[value-1]; trimLeft only strips a leading 0. . Not decided: the numbers of a whole generated document.',
-  'note': 'Trusted: CPython ast, sa/absint.py, sa/flow.py, LaTeX counter declarations of book.cls/article.cls as encoded in the checker. The roman and trimLeft rules accept an enumerated set of idioms; an unknown idiom is ANALYSIS-ERROR.',
-  'technique': 'cross-module table extraction (reset tree vs class levels), conditional constant propagation over declaration cases, counter dataflow, writer-table comparison (roman numerals)',
- },
- 'C09': {
-  'text': 'Decides the protocol of the label/reference tables for every path of the anchored code: Context.label stores a label with a target in both tables and as the node id, attaches to the current labelled object, and its back-patch loop visits every pending referrer (no early exit, no modification of the iterated list), replaces exactly the placeholders carrying this label and removes the pending list afterwards; Context.ref resolves known labels by membership (not truth of the node) to the labelled node itself, queues unknown ones with a placeholder whose id is the label, and never writes the label table; the argument-type table (label/id -> castLabel, ref/idref -> castRef with referrer and argument name; label, ref, pageref signatures); who may write currentlabel, the label table and the pending table (whole-package scan); the tables are created fresh per Context (no mutable default arguments, no class-level containers). Not decided: identity of the resolved object for all documents and orders.',
-  'note': 'Trusted: CPython ast. Several rules fix the accepted idiom of Context.label/ref.',
-  'technique': 'who-may-write scan, loop-shape analysis (no exit, no mutation of the iterated list, alias-aware), table extraction, per-instance-state check',
+  'not_decided': 'the token stream of a concrete input string beyond the per-cell transition table.',
+  'note': 'Trusted: CPython ast, sa/absint.py, the TeXbook ch. 8 table as worded by the property. get_let is summarised as identity.',
+  'technique': 'conditional constant propagation over (state x category x next category) cells of the tokenizer, table folding, copy-on-write on a context heap, emptiness dataflow',
  },
  'C02': {
-  'text': 'Narrow claim - the parameter plumbing every expansion depends on, not the expansion result: expandDef dispatch on parameter markers (## is one #, #n emits exactly params[n] with no offset, other tokens copied once in order), decided by constant propagation over token categories for seven body shapes; both argument collectors start the parameter list with one placeholder, only append, and hand it unchanged to expandDef; NewCommand.invoke reads exactly nargs arguments with the optional one (also for an empty default) read with [] and its default; the definition scope table (def/edef local, gdef/xdef global, newdef routing); parameter-text writer/reader agreement; no function edits in place a token list obtained from invoke() (which may be the stored definition); the redefinition table of Context.newcommand (user-level definitions are redefined, built-in macros left alone). NOT decided (declined): equality of the processed text with an independent TeX evaluation, delimited-parameter matching for concrete arguments, csname/expandafter results.',
-  'note': 'Trusted: CPython ast, sa/absint.py. One known finding (#{ parameter texts). The behavioural statement of C02 as a whole is a value-level property over token streams and is out of reach of static analysis; only the named structural clauses are claimed.',
-  'technique': 'conditional constant propagation over token categories (expandDef, argument counting, redefinition table), writer/reader table agreement, ownership scan of invoke() results',
+  'not_decided': 'equality of the processed text with an independent TeX evaluation for arbitrary programs (value-level; declined); only the parameter plumbing named in the rules is claimed.',
+  'note': 'Trusted: CPython ast, sa/absint.py. One known finding (#{ parameter texts).',
+  'technique': 'abstract interpretation of expandDef / Definition.invoke / NewCommand.invoke over token categories and small streams, insertion tables on a frame heap, ownership scan of invoke() results',
  },
- 'C15': {
-  'text': 'Decides, for both phases of the generator (static names, wildcard alternatives), on every path of one request: a name is yielded only after its extension was added, under the not-already-issued test made on that final name, and after being recorded in the issued set (no name issued twice or equal to a reserved name); $num advances exactly when a candidate containing it was formed and not when the alternative is abandoned for an unbound variable; the per-request namespace is reset after every formed name; the namespace is a copy of the variables, words are limited before forbidden characters are replaced and characters are replaced before substitution; the word limit never pops from an empty list; the only unbounded loop counts its passes, gives up past a constant bound and the function then raises; extension rule, $num width formatting, static phase before wildcard phase, alternatives in list order. Not decided: the exact sequence of names for a concrete template and bindings.',
-  'note': 'Trusted: CPython ast, sa/absint.py with exception edges restricted to the one call that can raise KeyError (Template.substitute).',
-  'technique': 'path enumeration with event ordering (dominance of the yield by extension, freshness test and recording), def-use ordering, sibling-phase agreement',
+ 'C03': {
+  'not_decided': 'which branch a concrete program selects beyond the bounded token sequences and operand samples of the rules.',
+  'note': 'Trusted: CPython ast, sa/absint.py, oracle tables from the TeXbook as worded by the property. Two known findings (ordinary macros named if... counted as opening conditionals).',
+  'technique': 'abstract interpretation of the branch scanner over token-name sequences, per-path call counting, relation/operand tables, class-table agreement',
  },
- 'C16': {
-  'text': 'Decides the structural part of configuration layering: client.main applies defaults (+ renderer sections), registerArgparse, parse_args, read(files), updateFromDict in this order on every path; every option class used by any option declaration (about 70 declarations in Config.py and HTML5/Config.py, including classes local to defaultConfig) either inherits the generic conversion with a value type whose constructor parses text (str/int/float) or overrides it soundly (booleans through a yes/no/true/false/on/off/1/0 table, lists extend, dictionaries set per entry from both sources with a parsing entry conversion); every declaration has a default of the declared type, interpolation-safe strings, unique destinations and flags, proper boolean flag pairs; store_true/false flags default to None and every updateFromDict skips None; interpolation on access is applied unconditionally to strings and lists of strings; file keys keep their case and option names match case-insensitively; each file gets its own parser; dictionary entries from a later source are assigned over the current value. Not decided: the value x source product for concrete configurations.',
-  'note': 'Trusted: CPython ast; two library facts in the checker: configparser lower-cases option names unless optionxform is rebound; bool(str) is truthiness, not parsing.',
-  'technique': 'option-class table extraction through local and module classes (method resolution), call-order dataflow, declaration scan, idiom tables',
+ 'C04': {
+  'not_decided': 'that a concrete document leaves the stack at depth 1.',
+  'note': 'Trusted: CPython ast, sa/flow.py, sa/absint.py; the pairing table of push/pop functions is frozen from the reference tree with one reason per entry (private helpers are folded into their callers).',
+  'technique': 'who-may-call table + structural counter dataflow (push/pop pairing), copy-on-write and lookup chains on a small frame heap',
  },
- 'C19': {
-  'text': 'Decides the structure of the ifthen evaluator for all inputs: the precedence table obtained by partially evaluating prec per operator class (comparison > not > and = or > parentheses/operands), the rule that an incoming prefix operator never pops waiting operators, left association by the <= popping test; operator-set agreement between prec and the evaluation chain with the right arities and operand order of comparisons; ifthenelse returns the then-tokens iff the value is true for all four emptiness combinations of the branches; whiledo has exactly one exit, under the negated test, re-expands the test every iteration and appends the body last, with no class-level state; the atoms map their tests to truth tokens; and, as a bounded cross-check, the evaluator interpreted abstractly over token kinds agrees with the reference semantics on every well-formed expression of up to 6 tokens (quick) / 8 tokens (thorough). Not decided: concrete operand evaluation and expressions beyond the bound.',
-  'note': 'Trusted: CPython ast, sa/absint.py, the reference evaluator in the checker (not tightest, and/or equal precedence left to right, parentheses) written from the property text.',
-  'technique': 'partial evaluation of the precedence function, idiom tables for the evaluation chain, conditional constant propagation of the evaluator over token kinds (exhaustive up to a size bound)',
+ 'C05': {
+  'not_decided': 'the values bound for concrete invocations beyond the scanner/token-kind tables and number samples of the rules.',
+  'note': 'Trusted: CPython ast, sa/absint.py, TeX unit constants and the TeXbook integer syntax in the checker.',
+  'technique': 'path-sensitive balance dataflow, cross-module signature/argtype table agreement, abstract interpretation of the scanners on token streams and concrete numerals',
  },
- 'C18': {
-  'text': 'Decides the structural part of index building: the prefix merge iterates over the sorted entries and entries compare by collation keys of sort keys, then display text, then number of levels; the common-prefix count stops at the first differing level; per entry exactly one page destination is appended, the walk returns to the common level and one node is created per missing level; every item goes into exactly one letter group and a new heading starts exactly when the heading value changes; on every branch of the column split an entry is placed in exactly one column, the filling order is undone and padding only adds empty columns; and the entry parser (! @ | and the quote character), interpreted abstractly over token kinds, yields the key path, sort path and format of the reference reading for every well-formed argument of up to 5 tokens (quick) / 7 tokens (thorough). Not decided: order for arbitrary key multisets, balance of the split, collation itself.',
-  'note': 'Trusted: CPython ast, sa/absint.py, the reference reader of the makeindex syntax in the checker. Observation (not armed, outside this repository): Index.py imports Collator_10_0_0 from the top level of pyuca, which the installed pyuca 1.2 does not export, so collation silently falls back to str.lower().',
-  'technique': 'per-iteration path tables (prefix merge, groups, columns), conditional constant propagation of the entry parser over token kinds (exhaustive up to a size bound), idiom tables',
+ 'C06': {
+  'not_decided': 'agreement of all derived views with a list model for every history of edits (the rules decide each editing method on small heaps, including equal-but-distinct siblings, not every sequence).',
+  'note': 'Trusted: CPython ast, sa/absint.py heap mode.',
+  'technique': 'ownership scan (who may mutate the child list) and abstract interpretation of every tree-editing method on small DOM heaps compared with a plain list model',
  },
- 'C20': {
-  'text': 'Decides the structural part of the label persistence protocol: the failure envelope (every pickle.load/open of saved label data, in Context.restore, Context.persist and the xr reader, lies inside a handler that catches every exception and does not re-raise; restore does nothing outside it after the existence test; persist re-initialises only this renderer table, adds a missing renderer section without dropping the others, has the table defined on every path before use, and a failing write only warns) - this covers every truncation point and corruption wholesale, since any exception raised by the load is caught; the attribute round-trip table (every name of Macro.refAttributes is, after the remap, assignable on a macro instance; read-only renderer properties are remapped); renderer keys from the same configuration entry at both call sites, own job file skipped, every label restored under the key it was saved with and from this renderer only; labels are saved while the renderable mix-in is still present. Not decided: individual byte-level corruptions beyond the envelope argument, equality of concrete restored label sets.',
-  'note': 'Trusted: CPython ast, sa/flow.py; the envelope rule relies on the Python semantics that `except Exception` / bare except catch every error an unpickler can raise (MemoryError included, RecursionError included).',
-  'technique': 'guard/envelope dominance on try-handlers, writer/reader attribute table agreement through the class model, call-order dataflow',
+ 'C07': {
+  'not_decided': 'word order and multiplicity for concrete documents.',
+  'note': 'Trusted: CPython ast, sa/absint.py. Two known findings (substitutions inside math arrays and ensuremath).',
+  'technique': 'per-iteration path enumeration with event counting (token linearity), level tables by constant propagation, paragraph regrouping and row deletion on DOM heaps, method-resolution tables',
  },
- 'C13': {
-  'text': 'Decides the structural part of file splitting for every path of the anchored code: in Renderable.__str__ every child rendering is disposed of exactly once - written to the child file (loop continues) iff child.filename, otherwise appended to the parent output; text and .str children appended once; every name obtained from the filename generator is memoised under r.files[self] and the memo is consulted first; cacheFilenames is a pre-order walk called before rendering (names in document order); the name generator and filename property contain no source of run-to-run variation; a template means a single file only when it has neither a blank nor a bracket; footnotes are gathered by climbing to the nearest section that has a filename (the same predicate that routes renderings); and the freshness guard of the name generator (names with extension tested against and recorded in the issued set before being yielded: pairwise distinct output files). Not decided: the partition of body text over files for every split level and template.',
-  'note': 'Trusted: CPython ast, sa/absint.py, sa/flow.py. The uniqueness clause reuses the C15 phase rules on Filenames._newFilename.',
-  'technique': 'per-child path enumeration with event counting (exactly-once routing), memoisation/def-use check, call-order dataflow, forbidden-call scan with positive fixture',
+ 'C08': {
+  'not_decided': 'the numbers of a whole generated document.',
+  'note': 'Trusted: CPython ast, sa/absint.py, the LaTeX counter declarations of book/article as encoded in the checker.',
+  'technique': 'class set-up interpreted on a recording heap (reset tree), counter protocol on small heaps, constant folding of the pure representation functions over their domain',
  },
- 'C12': {
-  'text': 'Decides the structural part of escaping for all documents: the text hook escapes & first, then < and >, on the non-markup path and keeps no state between calls; every value that reaches the output of Renderable.__str__ comes from the hook or from a renderer callable; only the raw-HTML packages may set isMarkup; every output expression of every HTML5 jinja2 template and layout (about 450 expressions in about 180 templates, parsed with jinja2, with the HTML tokenizer state tracked across the literal text) is classified by context and source kind - raw accessors (.textContent, .source) and striptags must be followed by an escaping filter, rendered nodes and titles may appear in attribute values only through | e, never in unquoted attributes, script, style or comments; template loops over fragments that can contain plain text nodes escape string items; for XHTML the two escaping facts of the ZPT engine (attribute values with quote=1, non-structure str content) are checked in simpleTAL.py and no template combines structure with a raw accessor; high-character escaping covers every code point above 127. Not decided: the decoded text of whole pages; post-processing regexes.',
-  'note': 'Trusted: CPython ast, jinja2 parser (from the repository environment), html.parser, the context tracker in sa/templates.py. Typed string arguments (url, category, names) and ids are not text-bearing positions of this property: counted, not armed. Two templates that do not parse as jinja2 are in a frozen skip table. Any other parse failure or an {% if %} whose arms leave different tokenizer states is ANALYSIS-ERROR.',
-  'technique': 'template context analysis (jinja2 AST + HTML tokenizer state), taint-style source/sanitiser/sink classification, dataflow over reassignments in the hook, who-may-write scan',
+ 'C09': {
+  'not_decided': 'identity of the resolved object for all documents and orders beyond the call sequences of the rules.',
+  'note': 'Trusted: CPython ast, sa/absint.py.',
+  'technique': 'abstract interpretation of Context.label / Context.ref call sequences on a small heap, who-may-write scan, per-instance-state check',
  },
- 'C14': {
-  'text': 'Decides the structural part of link integrity: anchor coverage - for every kind of node that can be a link target in the core document grammar (classes with a counter, sectioning units, navigation targets by linkType, footnotes, index entries, bibliography items, hypertarget, phantomsection, theorem environments; about 30 kinds from the class model) and for each of the HTML5 and XHTML renderers, the template that renders the kind (or the parent template / layout for kinds rendered in a loop) emits that node id in an id/name attribute; url composition (own-file nodes without fragment, otherwise nearest ancestor with a filename plus #id, with and without base-url); reference templates link only under a test of the resolved target; and the shared rules links depend on - footnotes gathered by the nearest file-producing section, the freshness guard of the file-name generator (no two nodes share a file), unique index group headings. Not decided: uniqueness of ids per file and reachability through the table of contents for concrete documents.',
-  'note': 'Trusted: CPython ast, jinja2 parser, html.parser, sa/templates.py. Link-target kinds that only exist in packages (amsmath variants, listings, ...) are listed in the evidence notes, not armed. One known finding (eqnarray rows in HTML5).',
-  'technique': 'cross-module table agreement (labelable classes from the model vs id-emitting templates from the template analyser), idiom tables for url composition',
+ 'C10': {
+  'not_decided': 'contents and borders of concrete generated tables beyond the scenario families of the rules.',
+  'note': 'Trusted: CPython ast, sa/absint.py, sa/flow.py.',
+  'technique': 'push/pop counter dataflow; abstract interpretation of the table and list methods on DOM heaps and token streams (phantoms, digestion, spans, rule scans, column specification)',
  },
  'C11': {
-  'text': 'Decides the structural part of verbatim/math pass-through: the verbatim protocol order of VerbatimEnvironment.invoke and verb.invoke (frame pushed, arguments parsed, verbatim category codes installed, then the scan; end-pattern characters read before the switch; on each end-pattern arm the frame is popped before the end token is re-inserted); the verbatim category table and its installation as a copy in the innermost frame; both end patterns handled by the same steps; the end scan appends every token and compares the tail with the end patterns, with no separate matching state; the verb delimiter is the token as read (only a begin-group is mapped) and both scan and digest stop at its next occurrence; no math-mode or verbatim container forwards character substitutions; the math-shift tracker is used as a stack by box arguments; source reconstruction is linear (every argument source appended once in order, sourceChildren joins every child, the begin/end/command forms of Macro.source). NOT decided (declined): token-for-token equality of the reconstructed math source with the author formula.',
-  'note': 'Trusted: CPython ast, sa/flow.py. Two known findings (substitutions inside math arrays and ensuremath change the math source). Several rules fix the accepted idiom of the two scanners.',
-  'technique': 'call-order dataflow (protocol ordering), sibling-arm agreement, idiom/ownership tables for the scan loops, method-resolution table for normalize',
+  'not_decided': 'token-for-token equality of the reconstructed math source with the formula for every formula (composition over arbitrary trees).',
+  'note': 'Trusted: CPython ast, sa/absint.py, sa/flow.py. Two known findings (substitutions inside math arrays and ensuremath change the math source). The list of LaTeX text boxes is a frozen table confirmed on the reference tree.',
+  'technique': 'abstract interpretation of the verbatim and \\verb scanners on scripted character streams and of the source properties on DOM heaps; stack-discipline dataflow; method-resolution tables',
+ },
+ 'C12': {
+  'not_decided': 'the decoded text of whole rendered pages; regex-level reasoning about the image-attribute post-processing.',
+  'note': 'Trusted: CPython ast, jinja2 parser (from the repository environment), html.parser, the context tracker in sa/templates.py. Typed string arguments (url, names) and ids are not text positions of this property. Two templates that do not parse as jinja2 are in a frozen skip table.',
+  'technique': 'template context analysis (jinja2 AST + HTML tokenizer state) with source/sanitiser/sink classification; abstract interpretation of the escaping hook, the render recursion (scripted renderer), the ZPT engine writers and the high-character escaping',
+ },
+ 'C13': {
+  'not_decided': 'the partition of body text over files for every split level and template.',
+  'note': 'Trusted: CPython ast, sa/absint.py, sa/flow.py. The uniqueness clause reuses the C15 generator rules.',
+  'technique': 'abstract interpretation of the render recursion, the file-name property, cacheFilenames, the split-level detection and the footnote owner on small heaps with a scripted renderer, file system and name generator; forbidden-call scan',
+ },
+ 'C14': {
+  'not_decided': 'that every link of a concrete output lands on an existing target.',
+  'note': 'Trusted: CPython ast, jinja2 parser, html.parser, sa/templates.py. Link-target kinds that only exist in packages are listed in the evidence notes, not armed. One known finding (eqnarray rows in HTML5).',
+  'technique': 'cross-module table agreement (labelable classes from the model vs id-emitting templates), abstract interpretation of url composition and of the name generator',
+ },
+ 'C15': {
+  'not_decided': 'uniqueness over unbounded request histories (decided for the scripted request sequences of the rule, which include exhaustion and static-name reuse).',
+  'note': 'Trusted: CPython ast, sa/absint.py (generator interpretation).',
+  'technique': 'abstract interpretation of the generator against scripted request sequences; parse/extension functions on concrete strings',
+ },
+ 'C16': {
+  'not_decided': 'the value x source product for arbitrary configurations (decided per option on representative values and one end-to-end layering).',
+  'note': 'Trusted: CPython ast, sa/absint.py; a small model of argparse (store, store_true/false, append, nargs, type) and of configparser (sections, items, optionxform) in the checker.',
+  'technique': 'the configuration object is built by abstract interpretation of defaultConfig/addConfig on a heap; conversions, registration/read-back, interpolation, file reading and layering are interpreted on it',
+ },
+ 'C17': {
+  'not_decided': 'equality of trees and files for concrete document sequences.',
+  'note': 'Trusted: CPython ast, sa/effects.py resolves class references through the static model. 11 known findings (register values, List.depth, MathShift.inEnv, article/natbib class patching, defcitealias aliases).',
+  'technique': 'whole-package effect/ownership scan with allow-table, path-sensitive balance and structural dataflow for paired writes',
+ },
+ 'C18': {
+  'not_decided': 'collation order of arbitrary key multisets (delegated to pyuca / str.lower) and balance of the column split.',
+  'note': 'Trusted: CPython ast, sa/absint.py, jinja2 parser, the reference reader of the makeindex syntax and the small jinja2/TAL interpreters in the checker (sa/tplinterp.py).',
+  'technique': 'bounded exhaustive abstract interpretation of the entry parser over token kinds; merge, groups, columns and key text on DOM heaps; the index templates interpreted on a scripted index node',
+ },
+ 'C19': {
+  'not_decided': 'evaluation of macro-produced operands and lengths in mixed units; expressions beyond the generated families.',
+  'note': 'Trusted: CPython ast, sa/absint.py, the reference evaluator in the checker (not tightest, and/or equal precedence left to right, parentheses, number relations) written from the property text.',
+  'technique': 'abstract interpretation of the evaluator on generated token sequences against a reference evaluator; branch selection, loop rounds and atoms interpreted with scripted expansions',
+ },
+ 'C20': {
+  'not_decided': 'each individual truncation point or bit flip of a saved file (subsumed by the envelope rule) and equality of concrete restored label sets.',
+  'note': 'Trusted: CPython ast, sa/absint.py with precise exception edges; relies on `except Exception` catching every error an unpickler can raise.',
+  'technique': 'abstract interpretation of persist / restore / the xr reader against a scripted file system (each failure kind injected), attribute round trip on heap objects, key-origin dataflow',
  },
 }
